@@ -41,7 +41,7 @@ def replySpec (id : Int) (tok : Nat) (before after : ObsC) : Bool :=
   else after == before   -- unknown, duplicate or already completed id: dropped, nothing changes
 
 def obsOf (s : Conn) : ObsC :=
-  { base := s.base, table := natSort (s.table.map (·.1)),
+  { base := s.base, table := s.table.map (·.1),
     waiters := (List.range s.nW).map (fun w => { id := (s.waiter w).id, got := (s.waiter w).got, resets := (s.waiter w).resets }) }
 
 /-- reference closed forms of the id generators (independent of the regenerated code) -/
